@@ -36,6 +36,7 @@ type C18 struct {
 	nExecuted, nDropped, nForced, nRejectedBusy, nReqDuringWait int
 	dropReasons map[string]int
 	prevStatus  map[uint64]tsstypes.GroupStatus
+	firstPeriod uint64
 }
 
 func (m *C18) Prop() string { return "C18" }
@@ -202,6 +203,20 @@ func (m *C18) OnBlock(e *Env, blk *world.BlockRecord) {
 				m.tr.Status = "waiting_exec"
 			case sigFallen:
 				m.drop(e, "handover_signing_failed")
+			default:
+				// the hand-over signing must come to an end: when its current attempt has expired, the end blocker either starts
+				// another attempt or fails the signing (which drops the transition). An attempt that expired blocks ago and is
+				// still the current one of a waiting signing means neither happened. (Signing period unchanged in this profile,
+				// so expiries are processed in creation order.)
+				tp := tk.GetParams(ctx)
+				if m.firstPeriod == 0 {
+					m.firstPeriod = tp.SigningPeriod
+				}
+				if cur := sg.Cur(); cur != nil && cur.Expired > 0 && tp.SigningPeriod == m.firstPeriod && blk.Height >= cur.Expired+3 && m.tr.Exec.After(now) {
+					e.Fail("C18", "handover_signing_not_concluded", "", "transition to group %d awaits hand-over signing %d whose attempt %d expired at height %d; at height %d the signing has neither a new attempt nor failed, and the transition is still waiting",
+						m.tr.Incoming, m.tr.Handover, cur.N, cur.Expired, blk.Height)
+					return
+				}
 			}
 		}
 	}
